@@ -1157,13 +1157,101 @@ def gen_order_arms(repo, write=True):
 
 
 
+# ---------------------------------------------------------------------------------------------
+# translator: the planner's guard `is_primary_key_range` (condition of the filter-scan rules)
+# ---------------------------------------------------------------------------------------------
+
+
+def gen_range_guard(repo, write=True):
+    """Reads fn is_primary_key_range (src/planner/rules/range.rs): which bound shapes count as INT
+    (`is_int`), the boolean combination of the two bounds that rejects a range, and the condition on
+    the key column; writes lean/RlModel/Gen/RangeGuard.lean (`rangeGuard`)."""
+    src = open(os.path.join(repo, "src/planner/rules/range.rs")).read()
+    i = src.index("fn is_primary_key_range")
+    fb = src.index("{", i)
+    body = re.sub(r"//[^\n]*", "", src[fb:_matching(src, fb)])
+    flat = " ".join(body.split())
+    # is_int
+    m = re.search(r"let is_int = \|b: &Bound<DataValue>\| (.*?);\s*if ", flat)
+    if not m:
+        raise ValueError("closure `is_int` not found")
+    isint = m.group(1).strip()
+    a = re.fullmatch(r"match b \{ Bound::Included\(v\) \| Bound::Excluded\(v\) => matches!\(v, DataValue::Int32\(_\)\), Bound::Unbounded => (true|false), \}", isint)
+    b = re.fullmatch(r"\{ matches!\( b, Bound::Included\(DataValue::Int32\(_\)\) \| Bound::Excluded\(DataValue::Int32\(_\)\) \) \}", isint)
+    if a:
+        unb = a.group(1)
+    elif b:
+        unb = "false"
+    else:
+        raise ValueError("closure `is_int` is not in a shape the translator reads: " + isint[:200])
+    # rejection of the bounds
+    m = re.search(r"if ([^{}]*?is_int[^{}]*?) \{ return false; \}", flat)
+    if not m:
+        raise ValueError("bounds check `if … is_int … { return false; }` not found")
+    cond = m.group(1).strip()
+    e = cond.replace("is_int(&range.start)", "guardIsInt lo").replace("is_int(&range.end)", "guardIsInt hi")
+    e = e.replace("||", " || ").replace("&&", " && ")
+    e = re.sub(r"!\s*guardIsInt (lo|hi)", r"(!guardIsInt \1)", e)
+    if not re.fullmatch(r"[\s()|&!]*(?:guardIsInt (?:lo|hi)[\s()|&!]*)+", e):
+        raise ValueError("cannot translate the bounds check: " + cond)
+    # condition on the column
+    m = re.search(r"if let Some\(col\) = egraph\.analysis\.catalog\.get_column\(column\) \{ (.*?) \} else \{ false \}", flat)
+    if not m:
+        raise ValueError("column condition not found")
+    atoms = [x.strip() for x in m.group(1).split("&&")]
+    lean_atoms = []
+    for at in atoms:
+        mm = re.fullmatch(r"column\.column_id == (\d+)", at)
+        if at == "col.is_primary()":
+            lean_atoms.append("primary.contains k")
+        elif mm:
+            lean_atoms.append("k == %s" % mm.group(1))
+        elif at == "col.data_type() == DataType::Int32":
+            lean_atoms.append("intCols.contains k")
+        else:
+            raise ValueError("unknown condition on the key column: " + at)
+    text = """/- GENERATED on every run of ./check C12 / C13 by checks/c12.py (gen_range_guard) from
+   src/planner/rules/range.rs, fn is_primary_key_range. Do not edit. -/
+import RlModel.Model.Scan
+namespace RlModel
+
+/-- `let is_int = |b| %s` -/
+def guardIsInt : Bnd → Bool
+  | .unb => %s
+  | .incl v => isI32Val v
+  | .excl v => isI32Val v
+
+/-- `if %s { return false; }` -/
+def guardBoundsReject (lo hi : Bnd) : Bool := %s
+
+/-- `%s` (k = the range's column) -/
+def guardColumn (primary intCols : List Nat) (k : Nat) : Bool := %s
+
+/-- `is_primary_key_range`: the condition under which the filter-scan rules move a condition into
+the scan node -/
+def rangeGuard (t : TableMeta) (e : Expr) : Bool :=
+  match analyzeRange e with
+  | some (k, r) => !guardBoundsReject r.lo r.hi && guardColumn t.primary t.intCols k
+  | none => false
+
+end RlModel
+""" % (isint.replace("/-", "").replace("-/", ""), unb, cond, e, " && ".join(atoms), " && ".join(lean_atoms))
+    path = os.path.join(vlib.LEAN, "RlModel", "Gen", "RangeGuard.lean")
+    if write:
+        old = open(path).read() if os.path.exists(path) else None
+        if old != text:
+            open(path, "w").write(text)
+    return text
+
+
 ORDER_ARMS = []
 
 
 def run_translators(ck):
     """Step 1 of both checks: the parts of the model that are DATA in the source are regenerated
     from the repository under test (never from a previous run's copy)."""
-    for name, f in (("merge-heap-bounds", gen_merge_heap), ("rowset-stop-condition", gen_rowset_stop), ("order-arms", gen_order_arms)):
+    for name, f in (("merge-heap-bounds", gen_merge_heap), ("rowset-stop-condition", gen_rowset_stop), ("order-arms", gen_order_arms),
+                    ("range-guard", gen_range_guard)):
         try:
             res = f(vlib.REPO)
             if name == "order-arms":
